@@ -111,7 +111,10 @@ def build_file(rows, columns, onsets):
     """rows: list of tuples of cell kinds (one per column).  Sidecar maps kind keys to texts for non-HED columns."""
     sidecar = {}
     for c in columns:
-        if c != "HED":
+        if c == "r":
+            # every key of column r splices column c1 into a group of its own
+            sidecar[c] = {"HED": {k: f"(Label/K-{k}, {{c1}})" for k in KINDS if k not in ("na", "badkey")}}
+        elif c != "HED":
             sidecar[c] = {"HED": {k: v for k, v in KINDS.items() if k not in ("na", "badkey")}}
     header = (["onset"] if onsets is not None else []) + list(columns)
     lines = ["\t".join(header)]
@@ -283,6 +286,82 @@ def check_permutations(env, rec, rows, columns, label):
             return
 
 
+def check_ref_permutations(env, rec, rows, label):
+    """Files whose column r splices column c1 (curly braces): every row order reports the same issues, row labels moved
+    with the rows (differential against the onset-ordered file; no hand-written expectation)."""
+    columns = ("c1", "r")
+    n = len(rows)
+    onsets = [10 * (i + 1) for i in range(n)]
+
+    def run(prow, pons):
+        tsv, sj = build_file(prow, columns, pons)
+        rec.n("evaluations")
+        rec.n("transitions")
+        rec.n("distinct_nontrivial")
+        try:
+            return tsv, validate_file(env, tsv, sj)
+        except Exception as e:
+            rec.violation(f"C07:raises:{type(e).__name__}:{label}", file=tsv, error=repr(e)[:300])
+            return tsv, None
+    tsv0, base = run(rows, onsets)
+    if base is None:
+        return
+    # the onset-ordered file itself: a row whose c1 cell is an unknown tag reports it on that row, other rows do not
+    for i, r in enumerate(rows):
+        has = any(x["code"] == "TAG_INVALID" and x.get("ec_row") == i + 2 for x in base)
+        want = r[0] in ("unknown", "badgroup") and r[1] != "na"
+        if has != want:
+            rec.violation(f"C07:spliced-cell-issue-on-wrong-row:{label}:sorted", file=tsv0, row=i + 2, expected=want, got=has)
+            return
+    base_keys = sorted(issue_key(i, {}) for i in base if i["code"] != "ONSETS_UNORDERED")
+    for perm in itertools.permutations(range(n)):
+        if perm == tuple(range(n)):
+            continue
+        tsv, got = run([rows[j] for j in perm], [onsets[j] for j in perm])
+        if got is None:
+            continue
+        relabel = {k + 2: perm[k] + 2 for k in range(n)}
+        keys = sorted(issue_key(i, relabel) for i in got if i["code"] != "ONSETS_UNORDERED")
+        if keys != base_keys:
+            rec.violation(f"C07:permutation-changes-issues:{label}", file=tsv, permutation=perm, base=base_keys[:8],
+                          permuted=keys[:8])
+            return
+    rec.outcome("ref-ok")
+
+
+def check_na_onsets(env, rec, kinds_, pattern, label):
+    """One HED column; some rows have onset n/a.  A row with a time is judged as in the file without the n/a rows; a row
+    without a time as a file of its own without onset column (string-level checks, temporal tags not allowed)."""
+    n = len(kinds_)
+    times = [None if p == "n/a" else 10.0 * (i + 1) for i, p in enumerate(pattern)]
+
+    def make(idx, with_onset=True):
+        lines = ["onset\tHED" if with_onset else "HED"]
+        for i in idx:
+            lines.append((("n/a" if times[i] is None else str(times[i])) + "\t" if with_onset else "") + KINDS[kinds_[i]])
+        return "\n".join(lines) + "\n"
+
+    def errs(issues, relabel):
+        return sorted((i["code"], relabel.get(i.get("ec_row"), i.get("ec_row"))) for i in issues if i["severity"] == ERR)
+    tsv = make(range(n))
+    rec.n("evaluations")
+    rec.n("transitions")
+    rec.n("distinct_nontrivial")
+    try:
+        got = errs(validate_file(env, tsv, "{}"), {})
+        timed = [i for i in range(n) if times[i] is not None]
+        want = errs(validate_file(env, make(timed), "{}"), {k + 2: i + 2 for k, i in enumerate(timed)}) if timed else []
+        for i in range(n):
+            if times[i] is None:
+                want += errs(validate_file(env, make([i], with_onset=False), "{}"), {2: i + 2})
+    except Exception as e:
+        rec.violation(f"C07:raises:{type(e).__name__}:{label}", file=tsv, error=repr(e)[:300])
+        return
+    if got != sorted(want):
+        rec.violation(f"C07:rows-without-time-change-the-issues:{label}", file=tsv, expected=sorted(want), got=got)
+    rec.outcome("na-onset")
+
+
 def worker(rec, shard, nshards, thorough, seed):
     env = Env()
     kinds = list(KINDS)
@@ -307,6 +386,26 @@ def worker(rec, shard, nshards, thorough, seed):
         check_permutations(env, rec, rows, columns, label)
         if ci % 1009 == 0:
             rec.sample({"family": label, "file": build_file(rows, columns, [10 * (i + 1) for i in range(len(rows))])[0]})
+    # F5 curly-brace splicing in files of three rows, every row order
+    ref_cases = []
+    c1k = ["na", "tag", "unknown", "reptag"] + (["group", "ext"] if thorough else [])
+    for combo in itertools.product(c1k, repeat=3):
+        for r0 in ("tag", "na"):
+            ref_cases.append([(combo[0], r0), (combo[1], "tag"), (combo[2], "circle")])
+    for ci in core.shard_order(len(ref_cases), shard, nshards, seed):
+        rec.state(("F5", tuple(ref_cases[ci])))
+        check_ref_permutations(env, rec, ref_cases[ci], "F5")
+    # F6 rows whose onset is n/a among rows with a time
+    na_cases = []
+    k6 = ["tag", "reptag", "unknown", "onset", "offset"] + (["inset", "delay", "duration"] if thorough else [])
+    for combo in itertools.product(k6, repeat=3):
+        for pattern in itertools.product(("n/a", "t"), repeat=3):
+            if "n/a" in pattern:
+                na_cases.append((combo, pattern))
+    for ci in core.shard_order(len(na_cases), shard, nshards, seed):
+        combo, pattern = na_cases[ci]
+        rec.state(("F6", combo, pattern))
+        check_na_onsets(env, rec, combo, pattern, "F6")
     # F4 unit spellings of Delay / Duration groups
     spell_cases = []
     for sp in UNIT_SPELLINGS:
